@@ -12,6 +12,8 @@ package c03
 import (
 	"fmt"
 
+	"verif/harness/core"
+
 	"verif/harness/meshlib"
 	ml "verif/harness/props/meshopslib"
 )
@@ -77,4 +79,44 @@ func (k checker) indexEdits() {
 		}
 	}
 	k.c.Bound("index_edit_pairs", fmt.Sprintf("%d meshes: a 64-triangle strip with two neighbouring indices moved by (±1|±2, -64..64) at index 0 and 121; every operation (first two parameter variants) on the strip, then on the edited strip", n))
+}
+
+// Scope "after-a-call-that-panicked": servers recover from a panicking request and go on.  Every
+// operation is first handed a mesh that is not well-formed (an index past the last vertex; whatever it
+// does with it — an error, a panic, a result — is ignored), then a well-formed mesh of the same size,
+// which is judged by its contract as every other input is.
+func (k checker) afterPanic() {
+	good := editStrip()
+	shg := ml.ShapeOfSpec(good)
+	gkey := good.String()
+	bad := good
+	bad.Idx = append([]int{}, good.Idx...)
+	bad.Idx[100] = good.V + 5
+	n := 0
+	for _, op := range ml.Alphabet {
+		vs := op.Variants(shg, false)
+		if len(vs) > 2 {
+			vs = vs[:2]
+		}
+		for _, p := range vs {
+			n++
+			if !k.c.Next() {
+				continue
+			}
+			core.Guard(func() { _, _ = op.Apply(bad.Build(), p) })
+			k.one(good, gkey, shg, op, p)
+			// and a smaller mesh that fits into whatever table the failed call left behind (with the
+			// parameter variants of its own shape)
+			small := meshlib.Spec{Topo: "tri", V: 6, Idx: []int{3, 4, 5}, Mix: "P"}
+			shs := ml.ShapeOfSpec(small)
+			for i, ps := range op.Variants(shs, false) {
+				if i >= 2 {
+					break
+				}
+				core.Guard(func() { _, _ = op.Apply(bad.Build(), p) })
+				k.one(small, small.String(), shs, op, ps)
+			}
+		}
+	}
+	k.c.Bound("after_a_call_that_panicked", fmt.Sprintf("%d operation variants: the operation on a 64-triangle strip with one index out of range (outcome ignored), then on the well-formed strip and on a one-triangle mesh with unreferenced vertices", n))
 }
